@@ -82,30 +82,49 @@ def RetJ (planAt : CallId → Option Plan) (hist : List Ev) : Prop :=
 
 /-! ## the invariant -/
 
-structure Inv (s : Sys) : Prop where
+/-- a set `AsyncResult` holds what its callback was invoked with -/
+def AresOk (ars : CallId → ARes) (hist : List Ev) : Prop :=
+  ∀ c, (ars c).flag = true → ∃ r e, ars c = ⟨r, some e, true⟩ ∧ Ev.fired c r e ∈ hist
+
+/-- a callback gets the result of its own command with SUCCESS, or `None` with a failure -/
+def FiredGood (resultOf : CmdRef → Nat) (hist : List Ev) : Prop :=
+  ∀ c r e, Ev.fired c r e ∈ hist → r = if e = .success then some (resultOf (.call c)) else none
+
+/-- the part of the invariant that does not mention the threads -/
+structure InvTF (s : Sys) : Prop where
   /-- FIFO: what was enqueued = what was dequeued, then what is still queued, in order -/
   fifo : enqSeq s.hist = deqSeq s.hist ++ s.q.items.map (fun e => e.cmd)
   /-- command and callback of a queue entry belong to the same call -/
   pairQ : ∀ e ∈ s.q.items, ∀ c, e.cb.isFor c = true → e.cmd = .call c
   pairP : ∀ p ∈ s.pend, ∀ c, p.e.cb.isFor c = true → p.e.cmd = .call c
-  /-- the callback of a call is in exactly one place: queue, core, or it has fired -/
-  token : ∀ c, s.q.items.countP (fun e => e.cb.isFor c) + s.pend.countP (fun p => p.e.cb.isFor c)
-              + s.hist.countP (Ev.isFired c) = if s.hasCb c = true ∧ s.putDone c then 1 else 0
-  /-- a call is enqueued once or refused once, when (and only when) its put step ran -/
-  enq1 : ∀ c, s.hist.countP (Ev.isEnq c) + s.hist.countP (Ev.isFull c)
-              = if s.isRepl c = true ∧ s.putDone c then 1 else 0
   /-- every dequeued command went exactly one way -/
   disp : ∀ m, s.hist.countP (Ev.isDeq m)
               = s.hist.countP (Ev.isApp m) + s.hist.countP (Ev.isFwd m) + s.hist.countP (Ev.isDrop m)
   /-- a set `AsyncResult` holds what its callback was invoked with -/
-  ares : ∀ c, (s.ars c).flag = true → ∃ r e, s.ars c = ⟨r, some e, true⟩ ∧ Ev.fired c r e ∈ s.hist
+  ares : AresOk s.ars s.hist
   /-- a callback gets the result of its own command, or `None` with a failure -/
-  firedGood : ∀ c r e, Ev.fired c r e ∈ s.hist →
-              r = if e = .success then some (s.resultOf (.call c)) else none
-  /-- every return of a sync call is justified by an earlier invocation of its callback, or is a timeout -/
-  retJust : RetJ s.planAt s.hist
+  firedGood : FiredGood s.resultOf s.hist
   /-- request ids in `commandsWaitingReply` were issued by the counter -/
   keys : ∀ p ∈ s.pend, ∀ n, p.key = .reply n → n ≤ s.counter
+
+/-- where the callback of call `c` is: in the queue, registered with the core, or fired -/
+def Sys.tokSum (s : Sys) (c : CallId) : Nat :=
+  s.q.items.countP (fun e => e.cb.isFor c) + s.pend.countP (fun p => p.e.cb.isFor c)
+    + s.hist.countP (Ev.isFired c)
+
+/-- how often call `c` was enqueued or refused -/
+def Sys.enqSum (s : Sys) (c : CallId) : Nat :=
+  s.hist.countP (Ev.isEnq c) + s.hist.countP (Ev.isFull c)
+
+structure Inv (s : Sys) : Prop extends InvTF s where
+  /-- the callback of a call is in exactly one place: queue, core, or it has fired -/
+  token : ∀ c, s.tokSum c = if s.hasCb c = true ∧ s.putDone c then 1 else 0
+  /-- a call is enqueued once or refused once, when (and only when) its put step ran -/
+  enq1 : ∀ c, s.enqSum c = if s.isRepl c = true ∧ s.putDone c then 1 else 0
+  /-- every return of a sync call is justified by an earlier invocation of its callback, or is a timeout -/
+  retJust : RetJ s.planAt s.hist
+  /-- a refused call that has a callback was told `QUEUE_FULL` through it -/
+  fullFired : ∀ c, Ev.full c ∈ s.hist → s.hasCb c = true → Ev.fired c none .queueFull ∈ s.hist
   /-- a thread past `start` is inside a replicated call; a waiting one inside a sync call -/
   builtOk : ∀ t, (s.thr t).phase ≠ .start → ∃ c cmd mode, s.current t = some (c, .replicate cmd mode)
   waitOk : ∀ t, (s.thr t).phase = .waiting → ∃ c cmd tmo, s.current t = some (c, .replicate cmd (.sync tmo))
@@ -120,7 +139,7 @@ theorem upd_other {β : Type} (f : Nat → β) {t i : Nat} (v : β) (h : i ≠ t
 
 theorem current_eq {s : Sys} {t : Nat} {c : CallId} {p : Plan} (h : s.current t = some (c, p)) :
     c = ⟨t, (s.thr t).next⟩ ∧ s.planAt c = some p := by
-  unfold Sys.current at h
+  unfold Sys.current Thread.cur at h
   split at h
   · simp at h
   · rename_i sp hsp
@@ -207,5 +226,219 @@ theorem RetJ_invokeEvs {P : CallId → Option Plan} {h : List Ev} (cb r e) (hj :
     RetJ P (invokeEvs cb r e ++ h) := by
   cases cb <;> simp only [invokeEvs, List.nil_append, List.cons_append] <;>
     first | exact hj | exact RetJ_cons_other (by intro c o; simp) hj
+
+/-! ## `AresOk`, `FiredGood` -/
+
+theorem AresOk_mono {ars : CallId → ARes} {h h' : List Ev} (hs : ∀ x ∈ h, x ∈ h') (ha : AresOk ars h) :
+    AresOk ars h' := by
+  intro c hc
+  obtain ⟨r, e, h1, h2⟩ := ha c hc
+  exact ⟨r, e, h1, hs _ h2⟩
+
+theorem AresOk_invoke {s : Sys} (cb r e) (ha : AresOk s.ars s.hist) :
+    AresOk (s.invoke cb r e).ars (s.invoke cb r e).hist := by
+  rw [invoke_ars, invoke_hist]
+  cases cb with
+  | ares c0 =>
+    intro c hc
+    by_cases hcc : c = c0
+    · subst hcc
+      exact ⟨r, e, by simp [updC], by simp [invokeEvs]⟩
+    · simp only [updC, hcc, ↓reduceIte] at hc ⊢
+      obtain ⟨r', e', h1, h2⟩ := ha c hc
+      exact ⟨r', e', h1, by simp [h2]⟩
+  | none => simpa [invokeEvs] using ha
+  | user c0 => exact AresOk_mono (by intro x hx; simp [hx]) ha
+  | remote n q => exact AresOk_mono (by intro x hx; simp [hx]) ha
+
+theorem FiredGood_cons_other {ro : CmdRef → Nat} {h : List Ev} {x : Ev} (hx : ∀ c r e, x ≠ .fired c r e)
+    (hf : FiredGood ro h) : FiredGood ro (x :: h) := by
+  intro c r e hm
+  rcases List.mem_cons.mp hm with hm | hm
+  · exact absurd hm.symm (hx c r e)
+  · exact hf c r e hm
+
+theorem FiredGood_invokeEvs {ro : CmdRef → Nat} {h : List Ev} (cb : CbRef) (r : Option Nat) (e : Fail)
+    (hr : ∀ c, cb.isFor c = true → r = if e = .success then some (ro (.call c)) else none)
+    (hf : FiredGood ro h) : FiredGood ro (invokeEvs cb r e ++ h) := by
+  cases cb with
+  | none => simpa [invokeEvs] using hf
+  | remote n q => exact FiredGood_cons_other (by intro c r e; simp) hf
+  | user c0 =>
+    intro c r' e' hm
+    simp only [invokeEvs, List.cons_append, List.nil_append, List.mem_cons, Ev.fired.injEq] at hm
+    rcases hm with ⟨rfl, rfl, rfl⟩ | hm
+    · exact hr c (by simp [CbRef.isFor])
+    · exact hf c r' e' hm
+  | ares c0 =>
+    intro c r' e' hm
+    simp only [invokeEvs, List.cons_append, List.nil_append, List.mem_cons, Ev.fired.injEq] at hm
+    rcases hm with ⟨rfl, rfl, rfl⟩ | hm
+    · exact hr c (by simp [CbRef.isFor])
+    · exact hf c r' e' hm
+
+/-! ## updating one thread -/
+
+theorem planAt_of_thr {s s' : Sys} {t : Nat} {th' : Thread} (h : s'.thr = upd s.thr t th')
+    (hp : th'.prog = (s.thr t).prog) : s'.planAt = s.planAt := by
+  funext c
+  unfold Sys.planAt
+  rw [h]
+  by_cases hc : c.t = t
+  · subst hc; simp [hp]
+  · rw [upd_other _ _ hc]
+
+theorem static_of_thr' {s s' : Sys} {t : Nat} {th' : Thread} (h : s'.thr = upd s.thr t th')
+    (hp : th'.prog = (s.thr t).prog) :
+    s'.planAt = s.planAt ∧ s'.modeAt = s.modeAt ∧ s'.isRepl = s.isRepl ∧ s'.hasCb = s.hasCb := by
+  have h1 := planAt_of_thr h hp
+  have h2 : s'.modeAt = s.modeAt := by funext c; simp [Sys.modeAt, h1]
+  exact ⟨h1, h2, by funext c; simp [Sys.isRepl, h2], by funext c; simp [Sys.hasCb, h2]⟩
+
+theorem putDone_of_thr {s s' : Sys} {t : Nat} {th' : Thread} (h : s'.thr = upd s.thr t th') (c : CallId) :
+    s'.putDone c ↔ if c.t = t then (c.k < th'.next ∨ (c.k = th'.next ∧ th'.phase = .waiting)) else s.putDone c := by
+  unfold Sys.putDone
+  rw [h]
+  by_cases hc : c.t = t
+  · subst hc; simp
+  · rw [upd_other _ _ hc]; simp [hc]
+
+theorem current_of_thr {s s' : Sys} {t : Nat} {th' : Thread} (h : s'.thr = upd s.thr t th') (t' : Nat) :
+    s'.current t' = if t' = t then th'.cur t else s.current t' := by
+  unfold Sys.current
+  rw [h]
+  by_cases hc : t' = t
+  · subst hc; simp
+  · rw [upd_other _ _ hc]; simp [hc]
+
+theorem InvTF_congr {s s' : Sys} (hq : s'.q = s.q) (hp : s'.pend = s.pend) (hh : s'.hist = s.hist)
+    (ha : s'.ars = s.ars) (hr : s'.resultOf = s.resultOf) (hc : s'.counter = s.counter) (hi : InvTF s) :
+    InvTF s' := by
+  constructor
+  · rw [hh, hq]; exact hi.fifo
+  · rw [hq]; exact hi.pairQ
+  · rw [hp]; exact hi.pairP
+  · rw [hh]; exact hi.disp
+  · rw [hh, ha]; exact hi.ares
+  · rw [hh, hr]; exact hi.firedGood
+  · rw [hp, hc]; exact hi.keys
+
+theorem tokSum_congr {s s' : Sys} (hq : s'.q = s.q) (hp : s'.pend = s.pend) (hh : s'.hist = s.hist) (c : CallId) :
+    s'.tokSum c = s.tokSum c := by unfold Sys.tokSum; rw [hq, hp, hh]
+
+theorem enqSum_congr {s s' : Sys} (hh : s'.hist = s.hist) (c : CallId) : s'.enqSum c = s.enqSum c := by
+  unfold Sys.enqSum; rw [hh]
+
+/-! ## `_applyCommand` -/
+
+/-- the two ways `_applyCommand` is called -/
+def PutKind (e : Entry) (okEv fullEv : Ev) : Prop :=
+  (∃ c0, okEv = .enq c0 ∧ fullEv = .full c0 ∧ e.cmd = .call c0) ∨
+  (∃ k, okEv = .renq k ∧ fullEv = .rfull k ∧ e.cmd = .foreign k)
+
+theorem applyCommand_frame (s : Sys) (e : Entry) (okEv fullEv : Ev) :
+    (s.applyCommand e okEv fullEv).thr = s.thr ∧ (s.applyCommand e okEv fullEv).pend = s.pend ∧
+    (s.applyCommand e okEv fullEv).counter = s.counter ∧ (s.applyCommand e okEv fullEv).resultOf = s.resultOf := by
+  unfold Sys.applyCommand
+  split <;> simp
+
+theorem applyCommand_TF {s : Sys} (hi : InvTF s) {e : Entry} {okEv fullEv : Ev} (hk : PutKind e okEv fullEv)
+    (hp : ∀ c, e.cb.isFor c = true → e.cmd = .call c) : InvTF (s.applyCommand e okEv fullEv) := by
+  unfold Sys.applyCommand FastQueue.putNowait
+  by_cases hfull : s.q.items.length > s.q.maxSize
+  · simp only [hfull, ↓reduceIte]
+    rcases hk with ⟨c0, rfl, rfl, hcmd⟩ | ⟨k, rfl, rfl, hcmd⟩
+    all_goals
+      constructor
+      · simpa [invoke_hist, enqSeq, deqSeq] using hi.fifo
+      · simpa using hi.pairQ
+      · simpa using hi.pairP
+      · intro m
+        have := hi.disp m
+        simpa [invoke_hist, List.countP_append, List.countP_cons, Ev.isDeq, Ev.isApp, Ev.isFwd, Ev.isDrop] using this
+      · exact AresOk_invoke _ _ _ (AresOk_mono (by intro x hx; simp [hx]) hi.ares)
+      · rw [invoke_hist, invoke_resultOf]
+        exact FiredGood_invokeEvs _ _ _ (by intro c _; simp) (FiredGood_cons_other (by intro c r e; simp) hi.firedGood)
+      · simpa using hi.keys
+  · simp only [hfull, ↓reduceIte]
+    rcases hk with ⟨c0, rfl, rfl, hcmd⟩ | ⟨k, rfl, rfl, hcmd⟩
+    all_goals
+      constructor
+      · simp [enqSeq, deqSeq, hi.fifo, hcmd]
+      · intro e' he' c hc
+        simp only [List.mem_append, List.mem_cons, List.not_mem_nil, or_false] at he'
+        rcases he' with he' | rfl
+        · exact hi.pairQ e' he' c hc
+        · exact hp c hc
+      · exact hi.pairP
+      · intro m
+        have := hi.disp m
+        simpa [List.countP_cons, Ev.isDeq, Ev.isApp, Ev.isFwd, Ev.isDrop] using this
+      · exact AresOk_mono (by intro x hx; simp [hx]) hi.ares
+      · exact FiredGood_cons_other (by intro c r e; simp) hi.firedGood
+      · exact hi.keys
+
+theorem applyCommand_tokSum (s : Sys) (e : Entry) {okEv fullEv : Ev} (hk : PutKind e okEv fullEv) (c : CallId) :
+    (s.applyCommand e okEv fullEv).tokSum c = s.tokSum c + tok e.cb c := by
+  unfold Sys.applyCommand FastQueue.putNowait Sys.tokSum
+  by_cases hfull : s.q.items.length > s.q.maxSize
+  · simp only [hfull, ↓reduceIte]
+    rcases hk with ⟨c0, rfl, rfl, hcmd⟩ | ⟨k, rfl, rfl, hcmd⟩ <;>
+      simp [invoke_hist, List.countP_append, Ev.isFired] <;> omega
+  · simp only [hfull, ↓reduceIte]
+    rcases hk with ⟨c0, rfl, rfl, hcmd⟩ | ⟨k, rfl, rfl, hcmd⟩ <;>
+      simp [List.countP_append, List.countP_cons, Ev.isFired, tok] <;> omega
+
+theorem applyCommand_enqSum (s : Sys) (e : Entry) {okEv fullEv : Ev} (hk : PutKind e okEv fullEv) (c : CallId) :
+    (s.applyCommand e okEv fullEv).enqSum c = s.enqSum c + if okEv = .enq c then 1 else 0 := by
+  unfold Sys.applyCommand FastQueue.putNowait Sys.enqSum
+  by_cases hfull : s.q.items.length > s.q.maxSize
+  · simp only [hfull, ↓reduceIte]
+    rcases hk with ⟨c0, rfl, rfl, hcmd⟩ | ⟨k, rfl, rfl, hcmd⟩ <;>
+      simp [invoke_hist, List.countP_append, List.countP_cons, Ev.isEnq, Ev.isFull] <;> omega
+  · simp only [hfull, ↓reduceIte]
+    rcases hk with ⟨c0, rfl, rfl, hcmd⟩ | ⟨k, rfl, rfl, hcmd⟩ <;>
+      simp [List.countP_cons, Ev.isEnq, Ev.isFull] <;> omega
+
+theorem invokeEvs_no_full (cb r e) (c : CallId) : Ev.full c ∉ invokeEvs cb r e := by
+  cases cb <;> simp [invokeEvs]
+
+theorem applyCommand_mono (s : Sys) (e : Entry) (okEv fullEv : Ev) :
+    ∀ x ∈ s.hist, x ∈ (s.applyCommand e okEv fullEv).hist := by
+  intro x hx
+  unfold Sys.applyCommand
+  split
+  · simp [hx]
+  · rw [invoke_hist]; simp [hx]
+
+theorem applyCommand_full {s : Sys} {e : Entry} {okEv fullEv : Ev} (hk : PutKind e okEv fullEv) (c : CallId)
+    (h : Ev.full c ∈ (s.applyCommand e okEv fullEv).hist) :
+    Ev.full c ∈ s.hist ∨ (fullEv = .full c ∧ (e.cb.isFor c = true → Ev.fired c none .queueFull ∈ (s.applyCommand e okEv fullEv).hist)) := by
+  unfold Sys.applyCommand at h ⊢
+  split at h
+  · rcases hk with ⟨c0, rfl, rfl, hcmd⟩ | ⟨k, rfl, rfl, hcmd⟩ <;> simp at h <;> exact Or.inl h
+  · rw [invoke_hist] at h ⊢
+    simp only [List.mem_append, List.mem_cons] at h
+    rcases h with h | h | h
+    · exact absurd h (invokeEvs_no_full _ _ _ _)
+    · rcases hk with ⟨c0, rfl, rfl, hcmd⟩ | ⟨k, rfl, rfl, hcmd⟩
+      · simp only [Ev.full.injEq] at h
+        subst h
+        refine Or.inr ⟨rfl, ?_⟩
+        intro hfor
+        obtain ⟨cmd, cb⟩ := e
+        cases cb <;> simp [CbRef.isFor] at hfor <;> subst hfor <;> simp [invokeEvs]
+      · simp at h
+    · exact Or.inl h
+
+theorem applyCommand_RetJ {s : Sys} (e : Entry) {okEv fullEv : Ev} (hk : PutKind e okEv fullEv)
+    {P : CallId → Option Plan} (hj : RetJ P s.hist) : RetJ P (s.applyCommand e okEv fullEv).hist := by
+  unfold Sys.applyCommand
+  split
+  · rcases hk with ⟨c0, rfl, rfl, hcmd⟩ | ⟨k, rfl, rfl, hcmd⟩ <;>
+      exact RetJ_cons_other (by intro c o; simp) hj
+  · rw [invoke_hist]
+    rcases hk with ⟨c0, rfl, rfl, hcmd⟩ | ⟨k, rfl, rfl, hcmd⟩ <;>
+      exact RetJ_invokeEvs _ _ _ (RetJ_cons_other (by intro c o; simp) hj)
 
 end PSO.Queue
